@@ -335,7 +335,7 @@ fn batch_fault(rep: &mut Report, rng: &mut Rng, h: &mut History, g: &mut Gen, wo
     let mut batch = valid.clone();
     batch.insert(pos.min(batch.len()), bad);
     let posname = ["first", "middle", "last"][pos];
-    let api = *rng.pick(&["annotate_from_iter", "annotate_from_file", "query-add"]);
+    let api = *rng.pick(&["annotate_from_iter", "annotate_from_file", "query-add", "query-add-offset"]);
     let Some(before) = snapshot(&h.store) else { return };
     rep.eval();
     let outcome: Result<Result<(), String>, Panic> = match api {
@@ -354,6 +354,24 @@ fn batch_fault(rep: &mut Report, rng: &mut Rng, h: &mut History, g: &mut Gen, wo
             let r = guard(|| h.store.annotate_from_file(&path).map(|_| ()).map_err(|e| format!("{}", e)));
             let _ = std::fs::remove_file(&path);
             r
+        }
+        "query-add-offset" => {
+            // the target of every row is the row's text narrowed by one relative offset: fine for the longer selections,
+            // inverted or out of bounds for the shorter ones; whether it fails is decided before anything is added
+            if res.id.contains('"') || res.id.contains('\\') {
+                return;
+            }
+            let text = format!(
+                "ADD ANNOTATION WITH DATA \"{}\" \"kq\" \"v\"; TARGET ?x OFFSET {} -{}; {{ SELECT TEXT ?x WHERE RESOURCE \"{}\"; }}",
+                g.fresh_id(rng, "s"),
+                rng.below(4),
+                rng.below(4),
+                res.id
+            );
+            guard(|| match Query::try_from(text.as_str()) {
+                Ok(q) => h.store.query_mut(q).map(|_| ()).map_err(|e| format!("{}", e)),
+                Err(e) => Err(format!("parse: {}", e)),
+            })
         }
         _ => {
             // an ADD query is a batch over the rows of its sub-query: with a fixed ID the second row fails on the duplicate id
